@@ -157,6 +157,7 @@ class Core:
         self.obligations = []
         self.obl_names = set()
         self.goal_assumptions = set()
+        self.ref_class = None
         self.read_log = None
         self.heap_tag = "new"
         self.spec_value_cache = {}
@@ -296,6 +297,8 @@ class Core:
         ka, kb = a.kind, b.kind
         if ka == "Poison" or kb == "Poison":
             return TPoison()
+        if "Delta" in (ka, kb) and {ka, kb} <= {"Int", "Real", "Delta"}:
+            return TReal if ka != kb else a
         if {ka, kb} <= {"Int", "Real", "Enum", "Bool"}:
             if "Real" in (ka, kb):
                 return TReal
@@ -362,6 +365,8 @@ class Core:
         ka, kt = a.kind, ty.kind
         if kt == "Poison" or ka == "Poison":
             return Val(TPoison(), None)
+        if kt == "Real" and ka == "Delta":
+            return Val(ty, v.z)
         if kt == "Real" and ka in ("Int", "Enum"):
             return Val(ty, z3.ToReal(v.z))
         if kt == "Real" and ka == "Bool":
@@ -566,11 +571,38 @@ class Core:
             if self.mode == "UNROLL" and self.S.ref_consts is not None:
                 # WF.types over the finite universe: well-typed references, enum values in range, lengths >= 0
                 ty = self.field_type(key)
-                for r in self.S.ref_consts:
+                for r in (self.consts_of_class(key[0]) if getattr(self, "ref_class", None) is not None else self.S.ref_consts):
                     f = self.well_typed(Val(ty, z3.Select(arr, r)), depth=0)
                     if f is not None:
                         self.assumptions.append(f)
         return self.ghost[name]
+
+    def set_universe_layout(self, layout):
+        """UNROLL mode: fix the class of every reference constant, e.g. [('BaseTask', 2), ('BaseWorker', 2)]"""
+        self.ref_class = {}
+        consts = list(self.S.ref_consts)
+        i = 0
+        for cls, n in layout:
+            for _ in range(n):
+                if i >= len(consts):
+                    raise ValueError("universe layout larger than the number of reference constants")
+                self.ref_class[consts[i].get_id()] = cls
+                self.assumptions.append(self.cls_of(consts[i]) == self.class_ids[cls])
+                i += 1
+        self.layout_consts = {}
+        for c in consts[:i]:
+            self.layout_consts.setdefault(self.ref_class[c.get_id()], []).append(c)
+        self.untyped_consts = consts[i:]
+
+    def consts_of_class(self, cls):
+        """reference constants that may denote an object of class cls (or a subclass)"""
+        if getattr(self, "ref_class", None) is None:
+            return list(self.S.ref_consts)
+        out = list(self.untyped_consts)
+        for c2, cs in self.layout_consts.items():
+            if cls is None or self.src.is_subclass(c2, cls):
+                out += cs
+        return out
 
     def class_ids_of(self, cls):
         return [self.class_ids[c] for c in self.src.subclasses(cls)] if cls in self.src.classes else []
@@ -579,6 +611,8 @@ class Core:
         """type invariant of a value (WF.types); None if there is nothing to say"""
         k = v.ty.kind
         if k == "Ref" and v.ty.cls is not None:
+            if self.mode == "UNROLL" and getattr(self, "ref_class", None) is not None:
+                return z3.Or(v.z == self.S.null, *[v.z == c for c in self.consts_of_class(v.ty.cls)])
             ids = self.class_ids_of(v.ty.cls)
             return z3.Or(v.z == self.S.null, *[self.cls_of(v.z) == i for i in ids])
         if k == "Enum":
